@@ -4,33 +4,46 @@ import vlib
 ID = 'C04'
 LEAN_MODULES = ['TboxModel.C04.Props']
 EXE = 'c04'
+MODE = 'trace'
 THEOREMS = ['Tbox.C04.C04_every_subscriber_once', 'Tbox.C04.C04_chain_old_handler', 'Tbox.C04.C04_oneshot_at_most_once',
             'Tbox.C04.C04_disposition_restored', 'Tbox.C04.C04_installed_while_subscribed', 'Tbox.C04.C04_ctx_matches',
-            'Tbox.C04.C04_callbacks_legit', 'Tbox.C04.C04_reinit_while_enabled_counterexample', 'Tbox.C04.C04_reachable_inv',
+            'Tbox.C04.C04_callbacks_legit', 'Tbox.C04.C04_no_callback_on_disabled_or_destroyed', 'Tbox.C04.C04_pass_drains',
+            'Tbox.C04.C04_reinit_while_enabled_counterexample', 'Tbox.C04.C04_enable_fails_midway_counterexample',
+            'Tbox.C04.C04_callback_on_destroyed_counterexample', 'Tbox.C04.C04_reachable_inv',
             'Tbox.C04.exec_inv', 'Tbox.C04.baseDisp_exec', 'Tbox.C04.cbCount_passes']
 SOURCES = vlib.EVENT_SOURCES + vlib.BASE_SOURCES
 FLAVOUR = 'asan'
 BATCH = 200
-TRUSTED = ['model lean/TboxModel/C04/Model.lean hand-written from common_loop_signal.cpp + signal_event_impl.cpp; tied by differential runs: '
-           'after every op isEnabled() of every event and sigaction(sig,nullptr,&cur) of the four signals (handler, SA_SIGINFO, flags, mask), '
-           'per raise the sentinel-handler invocations, per loop pass the callbacks (signal, event, isEnabled() inside the callback, thread)',
-           'Linux signal delivery: raise() runs the installed handler synchronously on the calling thread; sigaction/pipe semantics',
-           'a write fd of a loop\'s signal pipe is identified with the loop (fds of open pipes are distinct)']
-ASSUMPTIONS = ['signals SIGUSR1, SIGUSR2, SIGRTMIN+1, SIGRTMIN+2 only (sigaction never fails; the EINVAL branch of subscribeSignal is not modelled)',
-               'initialize() is given a std::set and is not called on an enabled event (outside the property\'s op alphabet; the code has no guard — '
-               'see C04_reinit_while_enabled_counterexample)',
+TRUSTED = ['model lean/TboxModel/C04/Model.lean hand-written from common_loop_signal.cpp + signal_event_impl.cpp AS REPAIRED by patches/C04-01..03 '
+           '(the code as found is kept behind switches and used only by the three _counterexample theorems); tied by a trace acceptor: '
+           'after every op isEnabled() of every event and sigaction(sig,nullptr,&cur) of the six signals (handler, SA_SIGINFO, flags, mask), '
+           'per raise the sentinel-handler invocations, per loop pass the callbacks in call order (signal, event, isEnabled() inside the callback, thread)',
+           'the only thing the model takes from the implementation is the order in which std::set<SignalSubscribuer*> walks the events (`ord=` of a pass line); '
+           'the theorems hold for every such order',
+           'Linux signal delivery: raise() runs the installed handler synchronously on the calling thread; sigaction/pipe semantics; sigaction fails exactly for SIGKILL/SIGSTOP',
+           'a write fd of a loop\'s signal pipe is identified with the loop (fds of open pipes are distinct)',
+           'each case runs in a forked child of the harness: the bookkeeping under test is process-wide']
+ASSUMPTIONS = ['signals SIGKILL, SIGUSR1, SIGUSR2, SIGSTOP, SIGRTMIN+1, SIGRTMIN+2 (ids 0..5)',
+               'initialize() is given a std::set (the int / initializer_list overloads, which accumulate into the set, are not exercised)',
                'the user does not call sigaction() on a signal while tbox\'s handler is installed for it, and never combines SIG_IGN with SA_SIGINFO',
                'fewer than 16384 undelivered signals per loop (pipe capacity)', 'signals are raised one at a time, not concurrently with a subscription change',
-               'callbacks do not change subscriptions (the property quantifies over enable/disable/destroy issued between deliveries)']
-RULE = ('op sequences (new/init/enable/disable/delete of signal events on 1-3 loops each owned by its own thread, user sigaction, real raise(), '
+               'a callback changes only events of its own loop (its own thread) and does not delete the event it belongs to',
+               'C04_every_subscriber_once (exactly once) assumes the callbacks of the subscribers of that signal do not change subscriptions; '
+               'with such callbacks C04_no_callback_on_disabled_or_destroyed / C04_callbacks_legit say who may be called']
+RULE = ('op sequences (new/init/enable/disable/delete of signal events on 1-3 loops each owned by its own thread, callback scripts that '
+        'enable/disable/delete sibling events, re-initialisation of enabled events, signal sets containing SIGKILL/SIGSTOP, user sigaction, real raise(), '
         'single loop passes, both engines) from props/C04/plugin.py; non-trivial = the model run restores at least one saved disposition AND some '
         'pass delivers at least one callback (driver tags restore + pass-cb1/pass-cbN); distinct = distinct op text')
 
+VALID = [1, 2, 4, 5]      # SIGUSR1, SIGUSR2, SIGRTMIN+1, SIGRTMIN+2   (0 = SIGKILL, 3 = SIGSTOP: sigaction fails)
 
-def sigset(rng, pool):
+
+def sigset(rng, pool, bad=0.0):
     k = rng.choice([1, 1, 1, 2, 2, 3])
-    s = sorted(rng.sample(pool, min(k, len(pool))))
-    return ','.join(map(str, s))
+    s = set(rng.sample(pool, min(k, len(pool))))
+    if rng.random() < bad:
+        s.add(rng.choice([0, 3]))
+    return ','.join(map(str, sorted(s)))
 
 
 def rand_sa(rng, g):
@@ -38,19 +51,33 @@ def rand_sa(rng, g):
     return 'sa %d %s %d %d' % (g, k, rng.randrange(4), rng.choice([0, 0, 1, 5, 10, 15]))
 
 
-def gen_case(rng, nops):
+def script(rng, self, n, p=0.35):
+    """callback body: enable/disable/delete of other events (never delete oneself)"""
+    if rng.random() >= p:
+        return '-'
+    acts = []
+    for _ in range(rng.choice([1, 1, 2, 3])):
+        j = rng.randrange(max(n, 1))
+        k = rng.choice('eddddxx')
+        if k == 'x' and j == self:
+            k = 'd'
+        acts.append('%s%d' % (k, j))
+    return ','.join(acts)
+
+
+def gen_case(rng, nops, scripts=0.35, bad=0.08):
     ops = ['eng ' + rng.choice('es')]
     nl = rng.choice([1, 2, 2, 3, 3])
-    pool = sorted(rng.sample(range(4), rng.choice([1, 2, 2, 3, 4])))   # few signals => much sharing
+    pool = sorted(rng.sample(VALID, rng.choice([1, 2, 2, 3, 4])))   # few signals => much sharing
     for g in pool:
         if rng.random() < 0.7:
             ops.append(rand_sa(rng, g))
     nev = rng.choice([1, 2, 3, 4, 6, 8])
     n = 0
     for _ in range(nev):
-        ops.append('new %d' % rng.randrange(nl))
+        ops.append('new %d %s' % (rng.randrange(nl), script(rng, n, nev, scripts)))
         if rng.random() < 0.93:
-            ops.append('init %d %s %s' % (n, sigset(rng, pool), rng.choice('oppp')))
+            ops.append('init %d %s %s' % (n, sigset(rng, pool, bad), rng.choice('oppp')))
         if rng.random() < 0.8:
             ops.append('en %d' % n)
         n += 1
@@ -59,16 +86,15 @@ def gen_case(rng, nops):
         e = rng.randrange(n)
         if r < 0.20: ops.append('en %d' % e)
         elif r < 0.38: ops.append('dis %d' % e)
-        elif r < 0.60: ops.append('raise %d' % (rng.choice(pool) if rng.random() < 0.9 else rng.randrange(4)))
+        elif r < 0.60: ops.append('raise %d' % (rng.choice(pool) if rng.random() < 0.9 else rng.randrange(6)))
         elif r < 0.80: ops.append('pass %d' % (rng.randrange(nl) if rng.random() < 0.95 else rng.randrange(3)))
         elif r < 0.84: ops.append('del %d' % e)
-        elif r < 0.90:
-            ops.append('dis %d' % e)
-            ops.append('init %d %s %s' % (e, sigset(rng, pool) if rng.random() < 0.9 else '-', rng.choice('op')))
-        elif r < 0.93: ops.append('init %d %s %s' % (e, sigset(rng, pool), rng.choice('op')))   # often on an enabled event: refused
+        elif r < 0.93:   # re-initialise, enabled or not
+            ops.append('init %d %s %s' % (e, sigset(rng, pool, bad) if rng.random() < 0.9 else '-', rng.choice('op')))
         elif r < 0.97 and n < 12:
-            ops.append('new %d' % rng.randrange(nl)); ops.append('init %d %s %s' % (n, sigset(rng, pool), rng.choice('op'))); n += 1
-        else: ops.append(rand_sa(rng, rng.choice(pool)))
+            ops.append('new %d %s' % (rng.randrange(nl), script(rng, n, n + 1, scripts)))
+            ops.append('init %d %s %s' % (n, sigset(rng, pool, bad), rng.choice('op'))); n += 1
+        else: ops.append(rand_sa(rng, rng.choice(pool) if rng.random() < 0.9 else rng.choice([0, 3])))
     # wind down: every subscription ends (disable or destroy), in random order; dispositions must be the saved ones
     order = list(range(n)); rng.shuffle(order)
     for e in order:
@@ -80,43 +106,68 @@ def gen_case(rng, nops):
     return ops
 
 
+def gen_dispatch(rng):
+    """one loop, one signal, 2-6 subscribers whose callbacks disable/delete/enable each other; several deliveries"""
+    ops = ['eng ' + rng.choice('es'), 'sa 1 h0 0 0']
+    n = rng.choice([2, 3, 4, 6])
+    for e in range(n):
+        ops += ['new 0 %s' % script(rng, e, n, 0.7), 'init %d %s %s' % (e, rng.choice(['1', '1', '1,2']), rng.choice('oppp')), 'en %d' % e]
+    for _ in range(rng.choice([2, 4, 8])):
+        ops += ['raise %d' % rng.choice([1, 1, 2])] * rng.choice([1, 1, 2]) + ['pass 0']
+        if rng.random() < 0.5:
+            ops.append('en %d' % rng.randrange(n))
+    for e in range(n):
+        ops.append('dis %d' % e)
+    ops += ['raise 1', 'pass 0']
+    return ops
+
+
 def gen_long_history(rng):
     """one signal, several events on several loops, very long subscribe/unsubscribe history with raises in between"""
-    ops = ['eng ' + rng.choice('es'), rand_sa(rng, 0).replace(' d ', ' h0 ').replace(' i ', ' a2 ')]
+    ops = ['eng ' + rng.choice('es'), rand_sa(rng, 1).replace(' d ', ' h0 ').replace(' i ', ' a2 ')]
     nl = rng.choice([2, 3])
     n = rng.choice([3, 5, 7])
     for e in range(n):
-        ops += ['new %d' % (e % nl), 'init %d %s %s' % (e, rng.choice(['0', '0', '0,1']), rng.choice('oppp'))]
+        ops += ['new %d -' % (e % nl), 'init %d %s %s' % (e, rng.choice(['1', '1', '1,2']), rng.choice('oppp'))]
     for _ in range(rng.choice([60, 150, 300])):
         e = rng.randrange(n)
-        ops.append(rng.choice(['en %d' % e, 'dis %d' % e, 'dis %d' % e, 'raise 0', 'raise 0', 'pass %d' % rng.randrange(nl)]))
+        ops.append(rng.choice(['en %d' % e, 'dis %d' % e, 'dis %d' % e, 'raise 1', 'raise 1', 'pass %d' % rng.randrange(nl)]))
     for e in range(n):
         ops.append('dis %d' % e)
-    ops += ['raise 0'] + ['pass %d' % l for l in range(nl)]
+    ops += ['raise 1'] + ['pass %d' % l for l in range(nl)]
     return ops
 
 
 DIRECTED = [
     # malformed stream: both sides must answer bad-op (or refuse) identically
-    ['eng x', 'new 3', 'new 0', 'init 0 4 p', 'init 0 1,0 p', 'init 0 0,0 p', 'init 0 0, p', 'init 0 0 q', 'en 1', 'sa 0 h3 0 0', 'sa 4 d 0 0',
-     'sa 0 h0 4 0', 'sa 0 h0 0 16', 'raise 4', 'pass 3', 'frob', 'init 0 0 p', 'en 0', 'init 0 1 p', 'del 0', 'en 0', 'dis 0', 'init 0 0 p'],
+    ['eng x', 'new 3 -', 'new 0 -', 'init 0 4 p', 'init 0 2,1 p', 'init 0 1,1 p', 'init 0 0, p', 'init 0 1 q', 'en 1', 'sa 1 h3 0 0', 'sa 4 d 0 0',
+     'sa 1 h0 4 0', 'sa 1 h0 0 16', 'raise 4', 'pass 3', 'frob', 'init 0 1 p', 'en 0', 'init 0 2 p', 'del 0', 'en 0', 'dis 0', 'init 0 1 p'],
     # two loops share one signal; one leaves, raise, the other leaves: restored field-wise (handler + flags + mask)
-    ['eng e', 'sa 0 h1 3 10', 'new 0', 'new 1', 'init 0 0 p', 'init 1 0 p', 'en 0', 'en 1', 'raise 0', 'pass 0', 'pass 1', 'dis 0', 'raise 0',
-     'pass 0', 'pass 1', 'dis 1', 'raise 0', 'pass 0', 'pass 1'],
+    ['eng e', 'sa 1 h1 3 10', 'new 0 -', 'new 1 -', 'init 0 1 p', 'init 1 1 p', 'en 0', 'en 1', 'raise 1', 'pass 0', 'pass 1', 'dis 0', 'raise 1',
+     'pass 0', 'pass 1', 'dis 1', 'raise 1', 'pass 0', 'pass 1'],
     # sa_sigaction-style old handler is chained exactly once; restored with SA_SIGINFO
-    ['eng s', 'sa 1 a2 1 5', 'new 0', 'init 0 1 p', 'en 0', 'raise 1', 'raise 1', 'pass 0', 'del 0', 'raise 1'],
+    ['eng s', 'sa 2 a2 1 5', 'new 0 -', 'init 0 2 p', 'en 0', 'raise 2', 'raise 2', 'pass 0', 'del 0', 'raise 2'],
     # one-shot on two signals, both pending in the pipe: fires once, pipe closed inside the pass
-    ['eng e', 'new 0', 'init 0 0,1 o', 'en 0', 'raise 0', 'raise 1', 'pass 0', 'raise 0', 'en 0', 'raise 1', 'pass 0', 'pass 0'],
+    ['eng e', 'new 0 -', 'init 0 1,2 o', 'en 0', 'raise 1', 'raise 2', 'pass 0', 'raise 1', 'en 0', 'raise 2', 'pass 0', 'pass 0'],
     # stale pipe content: raise, disable, (other signal keeps the pipe open), re-enable, pass
-    ['eng e', 'sa 0 i 0 0', 'new 0', 'new 0', 'init 0 0 p', 'init 1 1 p', 'en 0', 'en 1', 'raise 0', 'dis 0', 'pass 0', 'raise 0', 'en 0',
-     'raise 0', 'dis 0', 'en 0', 'pass 0', 'dis 0', 'dis 1', 'raise 0'],
+    ['eng e', 'sa 1 i 0 0', 'new 0 -', 'new 0 -', 'init 0 1 p', 'init 1 2 p', 'en 0', 'en 1', 'raise 1', 'dis 0', 'pass 0', 'raise 1', 'en 0',
+     'raise 1', 'dis 0', 'en 0', 'pass 0', 'dis 0', 'dis 1', 'raise 1'],
     # more than 10 pending numbers (read chunk of CommonLoop::onSignal), one-shot in the middle
-    ['eng e', 'new 0', 'new 0', 'init 0 0 p', 'init 1 0 o', 'en 0', 'en 1'] + ['raise 0'] * 23 + ['pass 0', 'pass 0', 'dis 0', 'sa 0 d 0 0'],
+    ['eng e', 'new 0 -', 'new 0 -', 'init 0 1 p', 'init 1 1 o', 'en 0', 'en 1'] + ['raise 1'] * 23 + ['pass 0', 'pass 0', 'dis 0', 'sa 1 d 0 0'],
     # enable of an uninitialised event, enable twice, disable twice, destroy enabled
-    ['eng s', 'sa 2 h0 2 0', 'new 1', 'en 0', 'dis 0', 'init 0 2,3 p', 'en 0', 'en 0', 'raise 2', 'pass 1', 'dis 0', 'dis 0', 'en 0', 'del 0', 'raise 2'],
+    ['eng s', 'sa 4 h0 2 0', 'new 1 -', 'en 0', 'dis 0', 'init 0 4,5 p', 'en 0', 'en 0', 'raise 4', 'pass 1', 'dis 0', 'dis 0', 'en 0', 'del 0', 'raise 4'],
     # three loops, disposition ignored before: chain does nothing, all three get the callback, restore to SIG_IGN
-    ['eng e', 'sa 3 i 1 0', 'new 0', 'new 1', 'new 2', 'init 0 3 p', 'init 1 3 o', 'init 2 3 p', 'en 0', 'en 1', 'en 2', 'raise 3', 'pass 2', 'pass 1',
-     'pass 0', 'raise 3', 'pass 0', 'pass 1', 'pass 2', 'del 2', 'del 0', 'raise 3'],
+    # (C04-01) initialize() on an enabled event: old signal unsubscribed, new signal's sigaction untouched, no dangling subscriber
+    ['eng e', 'sa 2 h1 1 0', 'new 0 -', 'init 0 1 p', 'en 0', 'init 0 2 p', 'del 0', 'raise 2', 'new 0 -', 'init 1 1 p', 'en 1', 'raise 1', 'pass 0', 'dis 1'],
+    # (C04-02) enable() with SIGSTOP in the set: fails, nothing stays subscribed; SIGKILL first: fails at once
+    ['eng e', 'sa 1 h2 0 0', 'new 0 -', 'init 0 1,3,4 p', 'en 0', 'raise 1', 'pass 0', 'del 0', 'raise 1', 'new 0 -', 'init 1 0,1 p', 'en 1', 'sa 0 i 0 0', 'sa 3 h0 0 0', 'raise 0', 'raise 3'],
+    # (C04-03) a callback disables / deletes a later subscriber of the same delivery, both directions
+    ['eng e', 'sa 1 i 0 0', 'new 0 d1', 'new 0 d0', 'init 0 1 p', 'init 1 1 p', 'en 0', 'en 1', 'raise 1', 'pass 0', 'en 0', 'en 1', 'raise 1', 'pass 0'],
+    ['eng s', 'sa 1 i 0 0', 'new 0 x1', 'new 0 x0', 'new 0 e0,e1', 'init 0 1 p', 'init 1 1 p', 'init 2 1 p', 'en 0', 'en 1', 'en 2', 'raise 1', 'pass 0', 'raise 1', 'pass 0'],
+    # a callback closes the pipe (last subscriber disabled) with more numbers pending, a later one reopens it
+    ['eng e', 'sa 1 i 0 0', 'new 0 d0,d1', 'new 0 -', 'init 0 1 p', 'init 1 2 p', 'en 0', 'en 1'] + ['raise 1', 'raise 2'] * 8 + ['pass 0', 'en 1', 'raise 2', 'pass 0', 'dis 1'],
+    ['eng e', 'sa 5 i 1 0', 'new 0 -', 'new 1 -', 'new 2 -', 'init 0 5 p', 'init 1 5 o', 'init 2 5 p', 'en 0', 'en 1', 'en 2', 'raise 5', 'pass 2', 'pass 1',
+     'pass 0', 'raise 5', 'pass 0', 'pass 1', 'pass 2', 'del 2', 'del 0', 'raise 5'],
 ]
 
 
@@ -125,16 +176,37 @@ def gen(rng, tier):
     for d in DIRECTED:
         yield d
     if tier == 'thorough':
-        # exhaustive: every op sequence of length <= 4 over a small alphabet (2 loops, one shared signal, one-shot + persistent)
-        alpha = ['en 0', 'dis 0', 'en 1', 'dis 1', 'raise 0', 'pass 0', 'pass 1', 'del 1', 'en 2']
+        # exhaustive: every op sequence of length <= 4 over a small alphabet (2 loops, one shared signal, one-shot + persistent,
+        # a callback that deletes a sibling)
+        alpha = ['en 0', 'dis 0', 'en 1', 'dis 1', 'raise 1', 'pass 0', 'pass 1', 'del 1', 'en 2']
         for L in range(1, 5):
             for seq in itertools.product(alpha, repeat=L):
-                yield ['eng e', 'sa 0 a1 1 2', 'new 0', 'new 1', 'new 1', 'init 0 0 p', 'init 1 0,1 o', 'init 2 0 p'] + list(seq) + \
-                      ['raise 0', 'pass 0', 'pass 1', 'dis 0', 'dis 1', 'dis 2', 'raise 0']
+                yield ['eng e', 'sa 1 a1 1 2', 'new 0 -', 'new 1 x2', 'new 1 d1', 'init 0 1 p', 'init 1 1,2 o', 'init 2 1 p'] + list(seq) + \
+                      ['raise 1', 'pass 0', 'pass 1', 'dis 0', 'dis 1', 'dis 2', 'raise 1']
     for _ in range(n):
         yield gen_case(rng, rng.choice([6, 12, 25, 50]))
+    for _ in range(n // 3):
+        yield gen_dispatch(rng)
     for _ in range(n // 10):
         yield gen_long_history(rng)
+
+
+def fingerprint(ops, d):
+    """class of the shrunk failing history (one fingerprint per defect class, so each is reported once)"""
+    import hashlib
+    inits = [o.split() for o in ops if o.startswith('init ')]
+    scripted = any(o.startswith('new ') and not o.endswith(' -') for o in ops)
+    bad_sig = any(set(w[2].split(',')) & {'0', '3'} for w in inits if len(w) == 4)
+    msg = (d[1] if d else '')
+    if scripted and ('pass' in msg or 'CRASH' in msg): return 'callback-on-stale-subscriber'
+    if bad_sig: return 'enable-fails-midway'
+    seen, en = set(), set()
+    for o in ops:
+        w = o.split()
+        if w[0] == 'en' and len(w) == 2: en.add(w[1])
+        if w[0] in ('dis', 'del') and len(w) == 2: en.discard(w[1])
+        if w[0] == 'init' and len(w) == 4 and w[1] in en: return 'initialize-on-enabled-event'
+    return hashlib.sha1(' '.join(o.split()[0] for o in ops).encode()).hexdigest()[:12]
 
 
 def nontrivial(ops, model_lines):
@@ -142,13 +214,14 @@ def nontrivial(ops, model_lines):
     return 1 if ('restore' in tags and ('pass-cb1' in tags or 'pass-cbN' in tags)) else None
 
 
-LEVEL_TEXT = ('Lean 4 theorems over a model of the process-wide signal bookkeeping (subscribeSignal/unsubscribeSignal/SignalHandlerFunc/onSignal + '
-              'SignalEventImpl): an inductive invariant over every op list (any number of signals, events, loops) yields ctx<->per-loop-map<->event '
-              'consistency, handler installed exactly while someone is subscribed, saved disposition restored, old handler chained once, every '
-              'subscriber called exactly once on its own loop, one-shot at most once; tied to the real code on every run by differential execution '
-              '(real sigaction/raise, loops on their own threads, both engines, ASan+UBSan build of the working tree)')
-LEVEL_NOTE = ('trusted: Lean kernel, hand-written model + differential tie (coverage bounded by the generator, measured), kernel signal semantics; '
-              'not covered: concurrent delivery vs subscription change, async-signal-safety of the handler\'s std::map access, sigaction failure, '
-              'callbacks that change subscriptions, re-initialising an enabled event')
+LEVEL_TEXT = ('Lean 4 theorems over a model of the process-wide signal bookkeeping (subscribeSignal incl. its failure path/unsubscribeSignal/'
+              'SignalHandlerFunc/onSignal incl. read chunks + SignalEventImpl with callback scripts): an inductive invariant over every op list '
+              '(any signals, events, loops, scripts, walking orders) yields ctx<->per-loop-map<->event consistency, handler installed exactly while '
+              'someone is subscribed, saved disposition restored, old handler chained once, no callback on a disabled or destroyed event, every '
+              'subscriber called exactly once on its own loop, one-shot at most once, termination of the read loop; tied to the real code on every '
+              'run by a trace acceptor (real sigaction/raise, loops on their own threads, both engines, ASan+UBSan build of the working tree)')
+LEVEL_NOTE = ('trusted: Lean kernel, hand-written model + trace-acceptor tie (coverage bounded by the generator, measured), kernel signal semantics; '
+              'not covered: concurrent delivery vs subscription change, async-signal-safety of the handler\'s std::map access, pipe overflow, '
+              'callbacks acting on another loop\'s events')
 TECHNIQUE = 'Lean 4 invariant proof over all op lists of a signal-bookkeeping model + model/implementation correspondence check'
 DESIGN_REF = 'DESIGN.md §6 C04'
